@@ -1,6 +1,5 @@
 use crate::{ffi, FileInfoIterator};
 use dnp3::master::*;
-use std::ffi::CString;
 use std::time::Duration;
 
 impl<T> sfio_promise::FutureType<Result<T, WriteError>> for ffi::EmptyResponseCallback {
@@ -154,7 +153,7 @@ impl sfio_promise::FutureType<Result<FileInfo, FileError>> for crate::ffi::FileI
             Ok(info) => {
                 // this stays validate for the duration of the completion callback allowing
                 // the C string to be copied
-                let name = CString::new(info.name).unwrap();
+                let name = super::functions::file_name_to_c_string(info.name);
                 let info = ffi::FileInfoFields {
                     file_name: &name,
                     file_type: info.file_type.into(),
